@@ -85,6 +85,30 @@ theorem parse_minimal_parens (e : RExpr) (hwf : RExpr.WF specTables e) (rest : P
   rw [embed_parenAll] at h2
   exact ⟨max f1 f2, fun f hf => ⟨h1 f (by omega), h2 f (by omega)⟩⟩
 
+/-- Parsing does not depend on where the tokens stand in the text: on the token vector with every location replaced by
+the default one the expression parser gives the same answer with every location erased (tree / error / rest). -/
+theorem parse_ignores_locations (T : PrecTables) (n : Nat) (s : PSt) :
+    parseExpr T n s.strip = (parseExpr T n s).strip PExpr.eraseLoc :=
+  parseExpr_strip T n s
+
+/-- **parse_minimal_parens** for token vectors with arbitrary locations (`mkSt ts rest` is the vector `ts` followed by
+the vector `rest`): if the tokens of `ts₁` are `minimal e` and the tokens of `ts₂` are `full e`, both are read as
+`embed e` up to locations, and the parser stops in front of `rest`. -/
+theorem parse_minimal_parens_located (e : RExpr) (hwf : RExpr.WF specTables e) (ts₁ ts₂ : List PTok) (rest : PSt)
+    (h₁ : ts₁.map (·.tok) = RExpr.minimal e) (h₂ : ts₂.map (·.tok) = RExpr.full e) (hS : Stops specTables 0 rest) :
+    ∃ f0, ∀ f, f0 ≤ f → ∃ t₁ s₁ t₂ s₂,
+      parseExpr Generated.precTables f (mkSt ts₁ rest) = .ok t₁ s₁ ∧
+      parseExpr Generated.precTables f (mkSt ts₂ rest) = .ok t₂ s₂ ∧
+      t₁.eraseLoc = e.embed ∧ t₂.eraseLoc = e.embed ∧ s₁.strip = rest.strip ∧ s₂.strip = rest.strip := by
+  rw [grammar_eq_spec]
+  obtain ⟨f1, g1⟩ := parse_located spec_wf e hwf ts₁ rest h₁ hS
+  obtain ⟨f2, g2⟩ := parse_located spec_wf e.parenAll (WF_parenAll e hwf) ts₂ rest h₂ hS
+  refine ⟨max f1 f2, fun f hf => ?_⟩
+  obtain ⟨t₁, s₁, a1, a2, a3⟩ := g1 f (by omega)
+  obtain ⟨t₂, s₂, b1, b2, b3⟩ := g2 f (by omega)
+  rw [embed_parenAll] at b2
+  exact ⟨t₁, s₁, t₂, s₂, a1, b1, a2, b2, a3, b3⟩
+
 /-- "a parenthesised sub-expression is always accepted where an operand is": `RExpr.paren` may wrap any
 sub-expression at any operand position of `e` in `parse_minimal_parens`, and it does not change the tree. -/
 theorem paren_operand_accepted (e : RExpr) : (RExpr.paren e).embed = e.embed := rfl
